@@ -1,7 +1,7 @@
 (** C10 — Exec in a forked child of a multithreaded process never deadlocks.
     Statements over the fork handlers that src/tsrm.c registers, recognised in the lock skeletons regenerated from the
     source on every run (Gen_Conc, clang AST).  General theorems: Conc/Fork.v. *)
-From Coq Require Import String List Bool.
+From Coq Require Import String List Bool Arith.
 From Snoopy Require Import Conc.Tsrm Conc.LockSkel Conc.TsrmProofs Conc.Fork.
 From Gen Require Import Gen_Conc Gen_Globals.
 Import ListNotations.
@@ -35,6 +35,25 @@ Proof. vm_compute. reflexivity. Qed.
 Theorem C10_all_locks_covered : forall g, In g globals -> is_lock_object g = true ->
   g_name g = "snoopy_tsrm_threadRepo_mutex"%string /\ covered_locks tsrm_fns = ["snoopy_tsrm_threadRepo_mutex"%string].
 Proof. exact (all_locks_covered_spec tsrm_fns globals all_locks_covered_ok). Qed.
+
+(** the repository mutex is recursive (type read from the pthread_mutexattr_settype call of snoopy_tsrm_init): a second lock by its owner - the
+    prepare handler of a fork() issued from a signal handler that interrupted a lock window - is granted, and gives the mutex back in two unlocks *)
+Lemma mutex_is_recursive : mutex_recursive tsrm_fns = true.
+Proof. vm_compute. reflexivity. Qed.
+Theorem C10_same_thread_reentry : forall t d, acquire t (Some (Thr t, S d)) = Some (Some (Thr t, S (S d)))
+  /\ release t (Some (Thr t, S (S d))) = Some (Thr t, S d) /\ release t (Some (Thr t, 1)) = None.
+Proof. intros t d. simpl. rewrite Nat.eqb_refl. auto. Qed.
+
+(** no function a wrapped call can reach uses a libc function with hidden process-wide state behind a libc-internal lock (getpwuid, getgrgid,
+    localtime, strtok, syslog, ...): fork() neither takes nor resets those locks, a child forked while another thread is inside one would block there *)
+Lemma libc_calls_have_no_hidden_lock : libc_calls_reentrant fn_refs (reachable_fns fn_refs data_refs) = true.
+Proof. vm_compute. reflexivity. Qed.
+
+(** localtime_r() and its relatives take libc's timezone lock, which fork() does not reset: no function a wrapped call can reach calls one
+    of them except through a guard that holds the repository mutex for the duration of the libc call (snoopy_tsrm_localtime_r, shape pinned by
+    [skeleton_ok]); the fork handlers hold that mutex across fork(), so no thread is inside the libc function on the library's behalf then *)
+Lemma timezone_lock_callers_guarded : tz_unguarded tsrm_fns fn_refs (reachable_fns fn_refs data_refs) = [].
+Proof. vm_compute. reflexivity. Qed.
 
 (** the one-time initialisation (mutex, registration of the fork handlers) runs when the library is loaded, from a
     function carrying __attribute__((constructor)) whose whole body is the constructor's pthread_once call: the handlers
